@@ -4,15 +4,28 @@
 //! before and after a CLI run of the hooked grcov binary; every difference must lie under out/,
 //! tmp/ must be empty after a normal exit. The path arithmetic (where an entry lands) is tied to
 //! the Lean `Confine` model.
+//! Since session 4, wave 2 (fixes 232bfd3, 2f541c3; review items 1, 18, 19): the archive is written
+//! entry by entry (`rawzipw`: repeated names stay repeated, directory and symlink entries), the pools
+//! hold names of consumer working directories (`0/…`, `1/…`, `0`), a 300-byte component, a stem whose
+//! numbered name exceeds NAME_MAX, and 236-byte sibling stems in the directory input AND the zip;
+//! link loops in the directory input; threads 1 / 2 / 8; `--llvm`; directory or zip first. Exit 1 runs
+//! (panics on over-long names) leave the temp dir behind: counted (`tmp_left_behind_after_exit_1`),
+//! allowed by the text. Parts: `dest.rs` (report destinations), `extract.rs` (the producer's
+//! extractions against `Confine.extractsOf`, in-process), `gcovstub.rs` (worker directories through a
+//! recording gcov).
 use corrlib::pipe::*;
 use corrlib::*;
 use serde_json::json;
 use std::collections::BTreeMap;
-use std::io::Write;
+
 use std::path::{Path, PathBuf};
 use std::time::Duration;
 
 mod dest;
+mod extract;
+mod gcovstub;
+#[path = "../../c17/src/rawzipw.rs"]
+mod rawzipw;
 
 fn snapshot(root: &Path) -> BTreeMap<String, String> {
     let mut m = BTreeMap::new();
@@ -46,19 +59,29 @@ fn snapshot(root: &Path) -> BTreeMap<String, String> {
 struct Entry {
     name: String,
     bytes: Vec<u8>,
+    /// unix mode of the entry (`0o120777`: symlink entry, `0o40755`: directory entry)
+    mode: Option<u32>,
 }
 
 fn write_zip(path: &Path, entries: &[Entry]) {
-    let f = std::fs::File::create(path).unwrap();
-    let mut z = zip::ZipWriter::new(f);
-    let opts = zip::write::SimpleFileOptions::default().compression_method(zip::CompressionMethod::Stored);
-    for e in entries {
-        // duplicate names are rejected by the writer: skip the second occurrence
-        if z.start_file(e.name.as_str(), opts).is_ok() {
-            z.write_all(&e.bytes).unwrap();
-        }
-    }
-    z.finish().unwrap();
+    // written entry by entry: repeated names stay repeated, a trailing `/` makes a directory entry,
+    // `mode` a symlink entry (the `zip` crate's writer refuses repeated names)
+    let ents: Vec<rawzipw::RawEnt> = entries
+        .iter()
+        .map(|e| rawzipw::RawEnt { name: e.name.as_bytes().to_vec(), data: e.bytes.clone(), mode: e.mode })
+        .collect();
+    std::fs::write(path, rawzipw::write_raw_zip(&ents)).unwrap();
+}
+
+/// the normal components of a path, hex, comma separated (the driver's `<segs>`)
+pub fn dest_segs(p: &Path) -> String {
+    p.components()
+        .filter_map(|c| match c {
+            std::path::Component::Normal(n) => Some(hex(n.to_str().unwrap().as_bytes())),
+            _ => None,
+        })
+        .collect::<Vec<_>>()
+        .join(",")
 }
 
 /// components of a path text, the way std::path / the zip crate see them: R(oot) C(ur) P(arent) N
@@ -83,8 +106,8 @@ fn comps(s: &str) -> String {
 }
 
 pub fn run(rep: &mut Report) {
-    rep.rule = "sandbox trees with hostile zip entry names (absolute, '..' segments escaping or not, long, \
-                duplicate), GCC-format gcno/gcda pairs and profraw entries (the two extraction sinks), symlinked \
+    rep.rule = "sandbox trees with hostile zip entry names (absolute, '..' segments escaping or not, 300-byte components, numbered names beyond NAME_MAX, \
+                really repeated, directory and symlink entries, names of worker directories 0/ 1/, 236-byte sibling stems in zip and directory), threads 1/2/8, --llvm, GCC-format gcno/gcda pairs and profraw entries (the two extraction sinks), symlinked \
                 input directories, .info files recording '../' and absolute source paths, all output types with file \
                 and directory outputs; non-trivial = the case contains at least one hostile name; distinct = distinct \
                 (entry names, output type)"
@@ -134,24 +157,44 @@ pub fn run(rep: &mut Report) {
             // the same file as `shared/x` of the directory input, spelled with a `.` segment
             "shared/./x".into(),
             "shared/x".into(),
+            // named like a consumer's working directory (fix 232bfd3)
+            "0/w0".into(),
+            "1/w1".into(),
+            "0".into(),
+            // a component of 300 bytes (longer than NAME_MAX) and a stem whose numbered name is
+            format!("{}/x", "N".repeat(300)),
+            "M".repeat(250),
+            // agrees with the directory input's `cov/<236 x I>_a` on a 236-byte prefix
+            format!("cov/{}_b", "I".repeat(236)),
+            format!("cov/{}_f", "I".repeat(236)),
         ];
         let mut entries = vec![];
         let mut stems = vec![];
         let mut hostile = false;
         for _ in 0..rng.range(1, 5) {
             let stem = rng.pick(&pool).clone();
-            if stem.contains("..") || stem.starts_with('/') || stem.contains('\\') || stem.contains("/./") {
+            if stem.contains("..") || stem.starts_with('/') || stem.contains('\\') || stem.contains("/./") || stem.len() > 200 || stem.starts_with("0") || stem.starts_with("1/") {
                 hostile = true;
             }
             match rng.below(3) {
                 0 => {
-                    entries.push(Entry { name: format!("{}.gcno", stem), bytes: gcno.clone() });
-                    entries.push(Entry { name: format!("{}.gcda", stem), bytes: gcda.clone() });
+                    entries.push(Entry { name: format!("{}.gcno", stem), bytes: gcno.clone(), mode: None });
+                    entries.push(Entry { name: format!("{}.gcda", stem), bytes: gcda.clone(), mode: None });
                 }
-                1 => entries.push(Entry { name: format!("{}.profraw", stem), bytes: profraw.clone() }),
-                _ => entries.push(Entry { name: format!("{}.gcno", stem), bytes: gcno.clone() }),
+                1 => entries.push(Entry { name: format!("{}.profraw", stem), bytes: profraw.clone(), mode: None }),
+                _ => entries.push(Entry { name: format!("{}.gcno", stem), bytes: gcno.clone(), mode: None }),
             }
             stems.push(stem);
+        }
+        // directory entries (one named like a profile), a symlink entry
+        if rng.chance(1, 3) {
+            entries.push(Entry { name: "junk.profraw/".into(), bytes: vec![], mode: Some(0o40755) });
+            entries.push(Entry { name: "sub/dir/".into(), bytes: vec![], mode: Some(0o40755) });
+            rep.count("zip_directory_entries");
+        }
+        if rng.chance(1, 4) {
+            entries.push(Entry { name: "lnk.profraw".into(), bytes: format!("{}/target.info", bait.display()).into_bytes(), mode: Some(0o120777) });
+            rep.count("zip_symlink_entry");
         }
         rng.shuffle(&mut entries);
         write_zip(&case_dir.join("in/hostile.zip"), &entries);
@@ -160,7 +203,7 @@ pub fn run(rep: &mut Report) {
             let enclosed_impl = {
                 // ask the zip crate itself through a one-entry archive
                 let p = case_dir.join("probe.zip");
-                write_zip(&p, &[Entry { name: format!("{}.x", s), bytes: vec![] }]);
+                write_zip(&p, &[Entry { name: format!("{}.x", s), bytes: vec![], mode: None }]);
                 let mut z = zip::ZipArchive::new(std::fs::File::open(&p).unwrap()).unwrap();
                 let r = z.by_index(0).map(|f| f.enclosed_name().is_some()).unwrap_or(false);
                 let _ = std::fs::remove_file(&p);
@@ -196,6 +239,22 @@ pub fn run(rep: &mut Report) {
             std::fs::write(case_dir.join("in/dirinput").join(name), body).unwrap();
             rep.count("dirinput_backslash_name");
         }
+        // long sibling names in the directory input (the zip may hold `cov/<same 236 bytes>_b|_f`)
+        if rng.chance(2, 3) {
+            std::fs::create_dir_all(case_dir.join("in/dirinput/cov")).unwrap();
+            let sfx = *rng.pick(&["a", "e"]);
+            std::fs::write(case_dir.join(format!("in/dirinput/cov/{}_{}.profraw", "I".repeat(236), sfx)), b"the directory's own long-named profile").unwrap();
+            std::fs::write(case_dir.join(format!("in/dirinput/cov/{}_{}.gcda", "I".repeat(236), sfx)), &gcda).unwrap();
+            std::fs::write(case_dir.join(format!("in/dirinput/cov/{}_{}.gcno", "I".repeat(236), sfx)), &gcno).unwrap();
+            rep.count("dirinput_long_sibling_names");
+        }
+        // a directory named like a worker directory, link loops
+        std::fs::create_dir_all(case_dir.join("in/dirinput/0")).unwrap();
+        std::fs::write(case_dir.join("in/dirinput/0/w0.gcda"), &gcda).unwrap();
+        std::fs::write(case_dir.join("in/dirinput/0/keep.profraw"), b"profile below a directory called 0").unwrap();
+        let _ = std::os::unix::fs::symlink(".", case_dir.join("in/dirinput/loop"));
+        let _ = std::os::unix::fs::symlink("l2.info", case_dir.join("in/dirinput/l1.info"));
+        let _ = std::os::unix::fs::symlink("l1.info", case_dir.join("in/dirinput/l2.info"));
         std::fs::write(case_dir.join("in/dirinput/sub/x.info"), "TN:\nSF:src/ok.c\nDA:3,1\nend_of_record\n").unwrap();
         std::fs::write(case_dir.join("bait/target.info"), "TN:\nSF:t.c\nDA:1,1\nend_of_record\n").unwrap();
         let _ = std::os::unix::fs::symlink(bait.join("target.info"), case_dir.join("in/dirinput/link.info"));
@@ -223,13 +282,20 @@ pub fn run(rep: &mut Report) {
         if rng.chance(1, 2) {
             extra.extend(["-s".to_string(), ".".to_string()]);
         }
+        if rng.chance(1, 5) {
+            extra.push("--llvm".into());
+            rep.count("opt.llvm");
+        }
+        let threads = *rng.pick(&[1usize, 2, 2, 8]);
+        rep.count(&format!("threads.{}", threads));
         let before = snapshot(&case_dir);
         // run from cwd/ with TMPDIR = tmp/
         std::env::set_var("TMPDIR", case_abs.join("tmp"));
         let cfg = RunCfg {
             dir: &case_dir.join("cwd"),
-            args: vec!["../in/hostile.zip".into(), "../in/paths.info".into(), "../in/dirinput".into()],
-            threads: 2,
+            // the directory first or the zip first: which of two colliding destinations is made first
+            args: if c % 2 == 0 { vec!["../in/dirinput".into(), "../in/hostile.zip".into(), "../in/paths.info".into()] } else { vec!["../in/hostile.zip".into(), "../in/paths.info".into(), "../in/dirinput".into()] },
+            threads,
             perturb: None,
             fault: None,
             limit: Duration::from_secs(60),
@@ -245,6 +311,14 @@ pub fn run(rep: &mut Report) {
         rep.count(&format!("exit.{}", match out.exit { Some(0) => "0".to_string(), Some(c) => c.to_string(), None => "timeout".into() }));
         if hostile {
             rep.count("hostile_archive");
+        }
+        // `process::exit(1)` / panic paths do not drop the temp dir (the text asks for removal after a
+        // normal completion only): counted as an observation
+        if out.exit != Some(0) && after.keys().any(|p| p.starts_with("tmp/")) {
+            rep.count(&format!("tmp_left_behind_after_exit_{}", out.exit.map(|c| c.to_string()).unwrap_or("timeout".into())));
+        }
+        if out.exit == Some(0) && after.keys().any(|p| p.starts_with("tmp/")) {
+            rep.count("tmp_left_behind_after_exit_0");
         }
         let case = json!({"op": "sandbox", "entries": names, "extra": extra, "exit": out.exit});
         if c == 0 {
@@ -304,6 +378,8 @@ pub fn run(rep: &mut Report) {
         }
     }
     dest::run(rep);
+    extract::run(rep);
+    gcovstub::run(rep);
 }
 
 pub fn replay(rep: &mut Report, _case: &serde_json::Value) {
